@@ -69,7 +69,8 @@ pub struct Oracle {
     restarts_checked: usize,
     sig_cache: BTreeMap<(String, String, String), Option<Vec<u64>>>,
     probed: BTreeSet<Entity>,
-    liveness_checked: bool,
+    liveness_checked: usize,
+    liveness_excused: bool,
 }
 
 impl Oracle {
@@ -88,7 +89,8 @@ impl Oracle {
             restarts_checked: 0,
             sig_cache: BTreeMap::new(),
             probed: BTreeSet::new(),
-            liveness_checked: false,
+            liveness_checked: 0,
+            liveness_excused: false,
         }
     }
 
@@ -301,10 +303,10 @@ impl Oracle {
         }
 
         // ---------------- bounded liveness after quiescence (C15-d)
-        if w.liveness_requested && !self.liveness_checked {
-            self.liveness_checked = true;
+        if w.liveness_markers > self.liveness_checked {
+            self.liveness_checked = w.liveness_markers;
             if self.is("C15") {
-                self.check_liveness(w, &certs, &open_messages, &signed_entities, step);
+                self.check_liveness(w, &certs, &open_messages, &sigs, step);
             }
         }
 
@@ -320,66 +322,81 @@ impl Oracle {
         }
     }
 
-    /// Faults have stopped, everything was delivered, every party registered and signed, the chain
-    /// advanced two epochs: the final epoch must be certified (or legitimately lack a quorum).
+    /// End of a quiescence phase (faults stopped; everything delivered; every party registered and
+    /// signed whatever was open; the aggregator ticked at least `4 * (#types + 3)` times, the last
+    /// five of them with nothing new arriving).
+    ///  R1 (every phase): no open round may sit there with a quorum of *stored* valid signatures.
+    ///  R2 (phases 2 and 3, i.e. epochs that lie entirely after the faults): every allowed entity
+    ///      type is certified for this epoch — unless a round is legitimately waiting for a quorum
+    ///      the registered stake did not reach, or the aggregator is blocked by an epoch gap that
+    ///      such a quorum-less epoch left behind.
     fn check_liveness(
         &mut self,
         w: &World,
         certs: &[CertificateRow],
         open_messages: &[crate::db::OpenMessageRow],
-        signed_entities: &[crate::db::SignedEntityRow],
+        sigs: &[crate::db::SingleSignatureRow],
         step: usize,
     ) {
+        let phase = w.liveness_markers;
         let e = w.epoch;
-        let mut kinds = vec!["MSD".to_string()];
-        kinds.extend(w.sc.entity_types.iter().cloned());
-        let certified: BTreeSet<&str> = certs
-            .iter()
-            .filter_map(|c| c.entity.as_ref())
-            .filter(|x| x.signing_epoch() == e)
-            .map(|x| x.kind())
-            .collect();
-        let with_artifact: BTreeSet<&str> = signed_entities.iter().filter(|s| s.entity.signing_epoch() == e).map(|s| s.entity.kind()).collect();
-        let missing: Vec<&String> = kinds.iter().filter(|k| !certified.contains(k.as_str())).collect();
-        for k in kinds.iter().filter(|k| certified.contains(k.as_str()) && !with_artifact.contains(k.as_str())) {
-            let _ = k;
-            self.probe("liveness_certificate_without_artifact_in_final_epoch");
-        }
-        if missing.is_empty() {
-            self.probe("liveness_final_epoch_fully_certified");
-            return;
-        }
-        // an open round that has its quorum delivered must have been sealed
+        let bound = 4 * (w.sc.entity_types.len() + 3);
         let signers = Self::model_signers(w, e, step);
-        for om in open_messages.iter().filter(|o| !o.is_certified && !o.is_expired) {
+        let last_error = w.last_tick.1.as_deref().map(crate::world::first_line).unwrap_or("none".into());
+        // R1
+        let mut waiting_without_quorum = false;
+        // only the newest open round counts: an older uncertified one has been superseded
+        for om in open_messages.iter().max_by_key(|o| o.rowid).filter(|o| !o.is_certified && !o.is_expired) {
             let message = self.open_messages.get(&om.id).map(|x| x.1.clone()).unwrap_or_default();
             let mut union: BTreeSet<u64> = BTreeSet::new();
-            for d in &w.deliveries {
-                if let MsgKind::Signature { entity, producer, .. } = &d.msg.kind
-                    && *entity == om.entity
-                    && (200..300).contains(&d.status)
-                {
-                    let pid = w.parties[*producer].party_id.clone();
-                    if let Some(ix) = self.delivered_valid_indexes(w, &signers, &pid, &d.body, &message) {
-                        union.extend(ix.into_iter().filter(|i| *i < w.sc.m));
-                    }
+            for s in sigs.iter().filter(|s| s.open_message_id == om.id) {
+                let body = serde_json::json!({"signature": s.signature}).to_string();
+                if let Some(ix) = self.delivered_valid_indexes(w, &signers, &s.signer_id, &body, &message) {
+                    union.extend(ix.into_iter().filter(|i| *i < w.sc.m));
                 }
             }
-            if union.len() as u64 >= w.sc.k {
+            if union.len() as u64 >= w.sc.k && om.entity.signing_epoch() == e {
                 self.report(step, "no-progress-after-faults", format!(
-                    "faults stopped two epochs ago, the accepted signatures for {} cover {} lottery indexes (k = {}), yet it is not certified after {} further ticks; state '{}', last tick error: {}",
-                    om.entity.label(), union.len(), w.sc.k, 4 * (w.sc.entity_types.len() + 3), w.last_tick.0,
-                    w.last_tick.1.as_deref().map(crate::world::first_line).unwrap_or("none".into())));
+                    "faults have stopped; the signatures stored for {} cover {} lottery indexes (k = {}), yet it is still not certified after at least {bound} further ticks (quiescence phase {phase}); state '{}', last tick error: {last_error}",
+                    om.entity.label(), union.len(), w.sc.k, w.last_tick.0));
                 return;
             }
-            // legitimately waiting for a quorum the registered stake did not reach
-            self.probe("liveness_final_epoch_lacks_quorum");
+            waiting_without_quorum = true;
+        }
+        let mut kinds = vec!["MSD".to_string()];
+        kinds.extend(w.sc.entity_types.iter().cloned());
+        let certified: BTreeSet<&str> = certs.iter().filter_map(|c| c.entity.as_ref()).filter(|x| x.signing_epoch() == e).map(|x| x.kind()).collect();
+        let missing: Vec<&String> = kinds.iter().filter(|k| !certified.contains(k.as_str())).collect();
+        if missing.is_empty() {
+            self.probe("liveness_epoch_fully_certified");
+            self.liveness_excused = false;
+            return;
+        }
+        if waiting_without_quorum {
+            self.probe("liveness_round_waits_for_unreachable_quorum");
+            self.liveness_excused = true;
+            return;
+        }
+        if phase == 1 {
+            // the epoch in which the faults happened: interrupted rounds may have been cut short
+            // (expired, superseded); later epochs tell whether the aggregator recovers
+            if certified.is_empty() {
+                self.report(step, "no-progress-after-faults", format!(
+                    "faults have stopped, all parties registered and sign, yet epoch {e} ends (quiescence phase 1, at least {bound} ticks) without any certificate and without any open round; state '{}', last tick error: {last_error}",
+                    w.last_tick.0));
+                return;
+            }
+            self.probe("liveness_fault_epoch_incomplete");
+            self.liveness_excused = false;
+            return;
+        }
+        if w.last_tick.0 == "blocked-epoch-gap" && self.liveness_excused {
+            self.probe("liveness_blocked_by_quorumless_epoch");
             return;
         }
         self.report(step, "no-progress-after-faults", format!(
-            "faults stopped two epochs ago, all parties registered and sign, yet epoch {e} has no certificate for {} and no round is open; state '{}', last tick error: {}",
-            missing.iter().map(|s| s.as_str()).collect::<Vec<_>>().join(", "), w.last_tick.0,
-            w.last_tick.1.as_deref().map(crate::world::first_line).unwrap_or("none".into())));
+            "faults stopped before epoch {e} began, all parties registered and sign, yet at the end of quiescence phase {phase} epoch {e} has no certificate for {} and no round is open; state '{}', last tick error: {last_error}",
+            missing.iter().map(|s| s.as_str()).collect::<Vec<_>>().join(", "), w.last_tick.0));
     }
 
     fn verify_chains(&mut self, w: &mut World, step: usize) {
